@@ -55,6 +55,15 @@ class Contract:
         # {callee qualname: [spec]}: facts assumed about the RESULT of that callee at its call sites inside this function only
         # (typically the shape of data fetched from an untyped structure); listed in evidence as assumptions
         self.assume_after_call: Dict[str, List[str]] = dict(kw.pop("assume_after_call", {}))
+        # termination measure for self-recursive functions: an integer expression over the parameters that is >= 0 and strictly
+        # smaller at every recursive call than at entry (obligation `decreases` at each such call site)
+        self.decreases: Optional[str] = kw.pop("decreases", None)
+        # termination-only view: every callee other than the function itself is replaced by "any effect, any result" (a sound
+        # over-approximation for obligations that talk about the parameters only, such as `decreases`)
+        self.abstract_callees: bool = kw.pop("abstract_callees", False)
+        # method names whose calls inside this function are ALWAYS taken by the dispatch (call-site) contract of the base method,
+        # also for self-calls and statically resolved receivers -- the caller then sees them as one event, not their inner steps
+        self.use_dispatch = list(kw.pop("use_dispatch", []))
         self.dyn_classes = list(kw.pop("dyn_classes", []))  # classes whose __call__ contract serves dynamic calls
         self.dyn_result = kw.pop("dyn_result", None)  # assumed return annotation of unknown callables  # may the function allocate objects that outlive the call?  # opaque spec functions whose definition this proof may use
         if kw:
